@@ -4,6 +4,7 @@
 set -u
 P=$1
 cd /verif
+git checkout -q -- evidence/$P.json 2>/dev/null
 if ! git merge --no-edit -q w/$P; then
   # conflicts in evidence files only (both sides re-ran the check): take the branch's, it is
   # rewritten below anyway
